@@ -4,6 +4,7 @@ import (
 	"context"
 	"errors"
 	"fmt"
+	"hash/fnv"
 	"net/http"
 	"os"
 	"sort"
@@ -38,6 +39,44 @@ type cacheCase struct {
 	Seed   uint64         `json:"seed"`
 	Ops    []opgen.Op     `json:"ops"`
 	Steps  []cacheStep    `json:"steps"`
+	// NullEvery > 0: every subgraph answers null in _entities for the representations whose
+	// hash is divisible by it (an entity the subgraph does not know), with and without cache
+	NullEvery int `json:"null_every,omitempty"`
+}
+
+// nullEntities is a sim interceptor that makes some entities unknown to the subgraphs: the
+// decision depends on the representation alone, so it is the same for every request.
+func nullEntities(every int, count *int) func(r *sim.Request, answer []byte) *sim.Response {
+	return func(r *sim.Request, answer []byte) *sim.Response {
+		reps, _ := r.Variables["representations"].([]any)
+		if every <= 0 || len(reps) == 0 {
+			return nil
+		}
+		v, err := ref.Decode(answer)
+		if err != nil {
+			return nil
+		}
+		m, _ := v.(map[string]any)
+		d, _ := m["data"].(map[string]any)
+		ents, _ := d["_entities"].([]any)
+		if len(ents) != len(reps) {
+			return nil
+		}
+		changed := false
+		for i, rp := range reps {
+			h := fnv.New32a()
+			h.Write([]byte(ref.Canon(rp)))
+			if h.Sum32()%uint32(every) == 0 && ents[i] != nil {
+				ents[i] = nil
+				changed = true
+			}
+		}
+		if !changed {
+			return nil
+		}
+		*count++
+		return &sim.Response{Body: []byte(ref.JSON(m))}
+	}
 }
 
 func allowFromEnv() map[string]bool {
@@ -62,6 +101,7 @@ var cachePart = pbt.Part[cacheCase]{Name: "entity-cache-transparency", Quick: 80
 		for i := 0; i < n; i++ {
 			c.Ops = append(c.Ops, opgen.Gen(t, super, opgen.Options{AltVars: 1, Allow: allowFromEnv(), MaxDepth: 6, Budget: 30, NoOmittedVars: !allowFromEnv()["omitted-variables"]}))
 		}
+		c.NullEvery = rapid.SampledFrom([]int{0, 0, 0, 2, 3, 4}).Draw(t, "nullevery")
 		k := rapid.IntRange(3, 8).Draw(t, "nsteps")
 		for i := 0; i < k; i++ {
 			s := cacheStep{Op: rapid.IntRange(0, n-1).Draw(t, "op"), Alt: rapid.IntRange(-1, 0).Draw(t, "alt")}
@@ -210,6 +250,18 @@ func checkCache(c cacheCase, o *pbt.Rec) pbt.Verdict {
 	}
 	cached.Transport.ExtraHeader = hdrFn
 	plain.Transport.ExtraHeader = hdrFn
+	nulled := 0
+	if c.NullEvery > 0 {
+		var mu2 sync.Mutex
+		ic := nullEntities(c.NullEvery, &nulled)
+		locked := func(r *sim.Request, answer []byte) *sim.Response {
+			mu2.Lock()
+			defer mu2.Unlock()
+			return ic(r, answer)
+		}
+		cached.Transport.Intercept = locked
+		plain.Transport.Intercept = locked
+	}
 	anyHit, anyFault, refusalWithPublic := false, false, false
 	var trace []string
 	for si := range c.Steps {
@@ -282,6 +334,12 @@ func checkCache(c cacheCase, o *pbt.Rec) pbt.Verdict {
 	}
 	if anyHit {
 		o.Label("cache-hit")
+	}
+	if nulled > 0 {
+		o.Label("null-entity-in-entities-response")
+		if anyHit {
+			o.Label("null-entity-and-cache-hit")
+		}
 	}
 	if refusalWithPublic {
 		o.Label("refusal-with-public")
